@@ -1471,6 +1471,12 @@ func (t *itype) assignableTo(o *itype) bool {
 		return false
 	}
 
+	if isNamed(t) && isNamed(o) && !isInterface(o) && t.cat != boolT {
+		// Two distinct named types are not assignable, even if their underlying types are identical.
+		// The predeclared bool is excepted, as it is also the type of comparisons instead of untyped bool.
+		return false
+	}
+
 	if t.isNil() && o.hasNil() || o.isNil() && t.hasNil() {
 		return true
 	}
@@ -2388,6 +2394,18 @@ func isChan(t *itype) bool { return t.TypeOf().Kind() == reflect.Chan }
 func isFunc(t *itype) bool { return t.TypeOf().Kind() == reflect.Func }
 func isMap(t *itype) bool  { return t.TypeOf().Kind() == reflect.Map }
 func isPtr(t *itype) bool  { return t.TypeOf().Kind() == reflect.Ptr }
+
+// isNamed returns true if t is a named type: a predeclared type or a defined type.
+func isNamed(t *itype) bool {
+	if t.untyped {
+		return false
+	}
+	if t.cat == valueT {
+		// The reflect type of a type defined in the interpreter is not named: consider only the types defined in binary packages.
+		return t.rtype.PkgPath() != ""
+	}
+	return t.name != ""
+}
 
 func isEmptyInterface(t *itype) bool {
 	return t != nil && t.cat == interfaceT && len(t.field) == 0
